@@ -29,7 +29,7 @@ class TimeProducer(DateTimeProducerBase):
 
         local_dts: tuple[SystemDateTime, ...]
 
-        date = dt.to_system_tz().date()
+        date = dt.to_system_tz().date().subtract(days=1)
         for _ in not_infinite_loop():  # noqa: RET503
             try:
                 local_dts = (self._time.replace(date), )
